@@ -7,6 +7,7 @@
 (*   gethost  : [.., g: [none, dp, res]]             expecting: [.., x: [ep, names, res]]              *)
 (*   iter     : [.., x: [all, ep, res]]              build: [.., x: [ep, vals, ext, url, ok]]          *)
 (*   bindsub  : [.., raised, host]                   factory: [.., f: [fac, ctx, src, out]]            *)
+(*   addbound : [.., raised]  (a rule of this map added to another Map)                                *)
 (*   Out      : [kind \in match|redirect|notfound|mna|wsm|other, rule, args: <<[name, ty, v]>>, url,   *)
 (*               methods, exc, fnrule, fnargs, fnadapter]                                              *)
 (* One TLC state per line; every verdict is total.  A `match` line is also run through the             *)
@@ -34,6 +35,8 @@ Verdict(c, ln) ==
     [] ln.op = "build"     -> JudgeBuild(c.rules, c.map, c.bind, ln.x)
     [] ln.op = "bindsub"   -> (IF c.map.hm /\ ln.raised = "" /\ ln.host # c.bind.server THEN "HostMatchingDisablesSubdomain" ELSE "ok")
     [] ln.op = "factory"   -> JudgeFactory(ln.f)
+    \* Map.add: "Add a new rule or factory to the map and bind it.  Requires that the rule is not bound to another map."
+    [] ln.op = "addbound"  -> (IF ln.raised = "" THEN "AddRequiresUnboundRule" ELSE "ok")
     [] OTHER -> "UnknownOp"
 
 Drift(c, ln) ==
